@@ -13,23 +13,28 @@ KIND_OF = {0: "F64", 1: "Dual", 2: "Dual2"}
 def sequences(tier):
     base = [[], [("order", "Two")], [("order", "Zero")], [("order", "One")], [("order", "Zero"), ("order", "One")], [("order", "Zero"), ("order", "Two")],
             [("order", "Two"), ("order", "One")], [("order", "Two"), ("order", "Zero")], [("update", 0)], [("update", 0), ("order", "Two")],
-            [("order", "Two"), ("update", 0)], [("update", "all")], [("badupdate",)], [("order", "Two"), ("badupdate",)], [("update", 0), ("update", "last")]]
+            [("order", "Two"), ("update", 0)], [("update", "all")], [("badupdate",)], [("order", "Two"), ("badupdate",)], [("update", 0), ("update", "last")],
+            [("badsettle",)], [("badsettle",), ("order", "Two")], [("badsettle",), ("order", "Zero"), ("order", "One")], [("badsettle",), ("update", "last")], [("order", "Two"), ("badsettle",), ("order", "One")]]
     if tier == "thorough":
-        ops = [("order", "Zero"), ("order", "One"), ("order", "Two"), ("update", 0), ("update", "last"), ("badupdate",)]
+        ops = [("order", "Zero"), ("order", "One"), ("order", "Two"), ("update", 0), ("update", "last"), ("badupdate",), ("badsettle",)]
         base += [list(p) for p in itertools.product(ops, repeat=3)]
     return base
 
 
 def obligations(tier):
     obs = []
-    for q in ((1, 2) if tier == "quick" else (1, 2, 3)):
+    for q in (1, 2, 3):
         for pairs, base, k in structures(q):
             if not is_tree(pairs, k):
                 continue
             if q == 3 and base is not None and base != 0:
                 continue
             for si, seq in enumerate(sequences(tier)):
-                if q == 3 and tier == "thorough" and si >= 15 and si % 7:
+                if q == 1 and any(st[0] == "badsettle" for st in seq):
+                    continue      # with a single quote a new settlement date is consistent (and accepted): not a refusal case
+                if q == 3 and tier == "quick" and si not in (0, 1, 3, 9, 16):
+                    continue
+                if q == 3 and tier == "thorough" and si >= 20 and si % 7:
                     continue
                 obs.append(dict(id=f"{[(NAMES[a], NAMES[b]) for a, b in pairs]} base={None if base is None else NAMES[base]} ops={seq}", pairs=pairs, base=base, k=k, seq=seq, dualq=False))
     # a quote that is already a dual number keeps its own variable
@@ -134,6 +139,12 @@ def one(m, S, ob):
                 own.pop(i, None)
             cur_order = 1        # update rebuilds through try_new: first order
             steps_json.append({"op": "update", "idx": idxs})
+        elif step[0] == "badsettle":
+            # a KNOWN pair, but with a settlement date while the market has none: refused, and the refused quote must never go live
+            bad = mk_quote(m, S, pairs[0][0], pairs[0][1], number_f64(S, newr[0]), some(NDT(20000, 0)))
+            r = m.call_text("FXRates::update", [fxref, Seq([bad])], [parse_type("&mut FXRates"), parse_type("Vec<FXRate>")], parse_type("Result<(), PyErr>"))
+            props.append((f"{tag}: update with an inconsistent settlement date is refused", r.variant == "Err"))
+            steps_json.append({"op": "badsettle"})
         else:
             before = cell.v
             bad = mk_quote(m, S, pairs[0][1], pairs[0][0], number_f64(S, newr[0]), NONE)   # inverse orientation is a different (unknown) pair
@@ -153,6 +164,8 @@ def one(m, S, ob):
                 ops.append(st)
             elif st["op"] == "update":
                 ops.append({"op": "update", "quotes": [quote_json(pairs[i][0], pairs[i][1], env[f"u{i}"]) for i in st["idx"]]})
+            elif st["op"] == "badsettle":
+                ops.append({"op": "update", "quotes": [quote_json(pairs[0][0], pairs[0][1], env["u0"], 20000)]})
             else:
                 ops.append({"op": "update", "quotes": [quote_json(pairs[0][1], pairs[0][0], env["u0"])]})
         sc = {"kind": "fx", "names": names, "quotes": qj, "base": None if base is None else NAMES[base], "ops": ops}
@@ -178,7 +191,7 @@ def one(m, S, ob):
                             out["mismatch"].append(f"{prof}: step {si}: valid update refused")
                     else:
                         if not snap.get("update_err"):
-                            out["mismatch"].append(f"{prof}: step {si}: update with unknown pair accepted")
+                            out["mismatch"].append(f"{prof}: step {si}: update with {'an inconsistent settlement date' if st['op'] == 'badsettle' else 'unknown pair'} accepted")
                 if "rates" not in snap:
                     out["mismatch"].append(f"{prof}: step {si}: {snap}"); continue
                 for i in range(k):
@@ -253,8 +266,8 @@ def run(tier, seed):
     if tot["panics"]:
         tot["undecided"].append(f"panic leaves: {tot['panics'][:3]}")
     standard_finish(PID, ev, obs, results, tot, lambda f: {"site": "FXRates"},
-                    bounds={"markets": f"every spanning-tree structure with 1..{2 if tier == 'quick' else 3} quotes (all orientations, orders, bases; canonical up to renaming), symbolic positive rates",
-                            "histories": f"{len(sequences(tier))} operation sequences of length 0..{2 if tier == 'quick' else 3} over set_ad_order(0/1/2), update(one / last / all quotes, symbolic new rates), rejected update (unknown pair)",
+                    bounds={"markets": "every spanning-tree structure with 1..3 quotes (all orientations, orders, bases; canonical up to renaming; with 3 quotes: base = first currency or none, and in the quick tier 5 of the histories), symbolic positive rates",
+                            "histories": f"{len(sequences(tier))} operation sequences of length 0..{2 if tier == 'quick' else 3} over set_ad_order(0/1/2), update(one / last / all quotes, symbolic new rates), rejected updates (unknown pair; known pair with a settlement date the rest of the market does not have, after which every later step must still see the old quotes)",
                             "dual_quotes": "first quote given as a Dual with its own variable and symbolic sensitivity", "outside": "longer histories (each step is checked against the closed form of the LATEST quotes, which is the inductive invariant); more than 3 quotes"},
                     rule="obligation = batch of 6 (market structure, history); after construction and after every step the whole matrix is compared with the closed form (value, first and second sensitivities by variable name) of the latest quotes; one validity query per (structure, history)",
                     assumptions=["structures and histories enumerated; rates symbolic", "exact arithmetic", "update rebuilds at first order (as the code documents by construction)"])
